@@ -181,6 +181,8 @@ def recorded_on_every_exit(ctx, f, fld, src):
 
 
 def run(ctx):
+    from .C15 import every_context_refreshed
+    every_context_refreshed(ctx)
     from .C15 import refresh_keeps_nothing
     refresh_keeps_nothing(ctx)      # a detector judges this tick's sample: nothing a context remembers outlives refresh()
     from .C01 import configured_patterns
